@@ -24,11 +24,13 @@ func init() {
 			"lookup by request id answers only on an exact id match and never for the empty id (C06.reqid-guard)",
 			"latest-N orders by key descending and returns the clamped prefix (C06.newest-first)",
 			"the history line reader has no fixed line-length cap (C06.unbounded-line)",
+			"the status cache stores with an entry file attributes taken before the load, and answers from memory only when the entry's size equals the file's and its mtime is not older (C06.cache-validator)",
+			"the lists of run files that are sorted, cut and walked are complete glob results or newest-first prefixes of them (C07.all-matches-considered, shared)",
 			"status lines are appended: existing history files are opened for writing only with O_APPEND and without O_TRUNC (C07.append-only, shared)",
 		},
 		NotDec: []string{
 			"equality with a reference model over operation sequences",
-			"Rename's string replacement of the prefix; cache staleness at mtime granularity; md5 collisions; ties between identical keys (sort stability)",
+			"Rename's string replacement of the prefix; cache staleness within one mtime second at equal size; md5 collisions; ties between identical keys (sort stability)",
 		},
 	})
 }
@@ -41,6 +43,8 @@ func runC06(e *Env) {
 	c06ReqID(e)
 	c06NewestFirst(e)
 	c06UnboundedLine(e)
+	c06CacheValidator(e)
+	c07Candidates(e) // a run whose file is dropped from the candidates by name is not returned
 	c07AppendOnly(e) // an update that does not append leaves queries answering the pre-update record
 }
 
